@@ -100,6 +100,7 @@ enum
 #define RISCV64  0x01
 #define RISCV128 0x02
 #define RISCV_FP 0x04
+#define RISCV32  0x08
 
 struct _table_riscv
 {
